@@ -54,6 +54,10 @@ func seededFor(home, prop string) []string {
 }
 
 func runSelfVariant(home, repo, prop, id string) selfResult {
+	return runVariant(home, repo, prop, id, filepath.Join(home, "seeded", id, "patch.diff"))
+}
+
+func runVariant(home, repo, prop, id, patch string) selfResult {
 	res := selfResult{ID: id}
 	work, err := os.MkdirTemp("", "mvself-")
 	if err != nil {
@@ -73,7 +77,7 @@ func runSelfVariant(home, repo, prop, id string) selfResult {
 	if b, err := os.ReadFile(filepath.Join(home, "known_findings.json")); err == nil {
 		os.WriteFile(filepath.Join(whome, "known_findings.json"), b, 0o644)
 	}
-	p := exec.Command("patch", "-p1", "-s", "-i", filepath.Join(home, "seeded", id, "patch.diff"))
+	p := exec.Command("patch", "-p1", "-s", "-i", patch)
 	p.Dir = wrepo
 	if out, err := p.CombinedOutput(); err != nil {
 		res.Note = "patch does not apply to the current tree: " + firstLines(string(out), 2)
@@ -95,6 +99,9 @@ func runSelfVariant(home, repo, prop, id string) selfResult {
 	}
 	if !res.Detected {
 		res.Note = fmt.Sprintf("exit=%d", code)
+		if code != 0 && code != 1 {
+			res.Note = "error"
+		}
 	}
 	return res
 }
@@ -129,6 +136,48 @@ func selfTestInto(c *Ctx) {
 			}
 		}
 	}
+	// negative variants: behaviour-preserving refactorings under /verif/refactors*/<id>/patch.diff must stay silent
+	var negIDs []string
+	for _, dir := range []string{"refactors", "refactors2"} {
+		ents, _ := os.ReadDir(filepath.Join(c.Home, dir))
+		for _, e := range ents {
+			if e.IsDir() {
+				if _, err := os.Stat(filepath.Join(c.Home, dir, e.Name(), "patch.diff")); err == nil {
+					negIDs = append(negIDs, dir+"/"+e.Name())
+				}
+			}
+		}
+	}
+	sort.Strings(negIDs)
+	neg := make([]selfResult, len(negIDs))
+	for i, id := range negIDs {
+		wg.Add(1)
+		sem <- struct{}{}
+		go func(i int, id string) {
+			defer wg.Done()
+			defer func() { <-sem }()
+			neg[i] = runVariant(c.Home, c.Repo, c.Prop, id, filepath.Join(c.Home, id, "patch.diff"))
+		}(i, id)
+	}
+	wg.Wait()
+	negApplied, negSilent := 0, 0
+	var alarms []selfResult
+	for _, r := range neg {
+		if r.Applied {
+			negApplied++
+			if !r.Detected && r.Note != "error" {
+				negSilent++
+			} else {
+				alarms = append(alarms, r)
+				fmt.Printf("SELF-TEST: behaviour-preserving variant %s makes %s report a violation (false alarm of the checker)\n", r.ID, c.Prop)
+			}
+		}
+	}
+	c.Extra["negative_variants"] = map[string]any{
+		"what":     "each behaviour-preserving refactoring kept under /verif/refactors*/ is applied to a scratch copy of the working tree and the check's quick rules are re-run on it; the check must stay silent",
+		"variants": len(negIDs), "applied": negApplied, "silent": negSilent, "alarms": alarms,
+	}
+	fmt.Printf("%s self-test: %d behaviour-preserving variant(s), %d applied, %d silent\n", c.Prop, len(negIDs), negApplied, negSilent)
 	c.Extra["self_test"] = map[string]any{
 		"what":     "each seeded change recorded as caught by this check is applied to a scratch copy of the working tree (outside /repo and /verif, deleted afterwards) and the check's quick rules are re-run on the copy in a fresh process; a change is 'detected' when that run exits 1 with a VIOLATION line",
 		"variants": len(ids), "applied": applied, "detected": detected, "results": results,
